@@ -70,8 +70,7 @@ fn cfg_write<T: zerocopy::IntoBytes + zerocopy::Immutable, X: Transport>(t: &mut
     }
 }
 
-pub fn exercise<X: Transport>(t: &mut X, dev: &Rc<RefCell<VirtioMmioDev>>, p: &MmioParams, rng: &mut SmallRng) {
-    let legacy = p.ver == 1;
+pub fn exercise<X: Transport>(t: &mut X, set_offered: &dyn Fn(u64), set_isr: &dyn Fn(u32), legacy: bool, cfg_len: usize, rng: &mut SmallRng) {
     let pats: [u64; 6] = [0, 1, 0xffff, 0x8000, 0x1234, 0xfffe];
     let addr = |rng: &mut SmallRng| -> u64 {
         let mut a = 0u64;
@@ -89,7 +88,7 @@ pub fn exercise<X: Transport>(t: &mut X, dev: &Rc<RefCell<VirtioMmioDev>>, p: &M
     op_end(json!({"b": r}));
     // features
     for f in [0u64, 1, 0xffff_ffff, 0x1_0000_0000, u64::MAX, rng.r#gen(), rng.r#gen()] {
-        dev.borrow_mut().offered = f;
+        set_offered(f);
         op("read_device_features", json!({}));
         let r = t.read_device_features();
         op_end(json!({"vl": limbs(r, 4)}));
@@ -109,7 +108,7 @@ pub fn exercise<X: Transport>(t: &mut X, dev: &Rc<RefCell<VirtioMmioDev>>, p: &M
         op_end(json!({"vl": limbs(r.bits() as u64, 2)}));
     }
     for isr in 0..4u32 {
-        dev.borrow_mut().isr = isr;
+        set_isr(isr);
         op("ack_interrupt", json!({}));
         let r = t.ack_interrupt();
         op_end(json!({"v": r.bits()}));
@@ -154,7 +153,7 @@ pub fn exercise<X: Transport>(t: &mut X, dev: &Rc<RefCell<VirtioMmioDev>>, p: &M
         }
     }
     // configuration space bounds (C13)
-    let l = p.cfg_len;
+    let l = cfg_len;
     let mut offs: Vec<usize> = vec![0, 1, 2, 3, 4, 5, 6, 7, 8, 12, 16, 1usize << 32, usize::MAX, usize::MAX - 1, usize::MAX - 3, usize::MAX - 7];
     for d in 0..=9 {
         offs.push(l.saturating_sub(d));
@@ -233,15 +232,16 @@ pub fn run(p: &MmioParams, sc: &str) -> (Vec<String>, Value) {
             w.trace.clear();
             w.reg(json!({"e":"MReset","sc":sc,"ver":p.ver,"cfg_len":p.cfg_len}));
         });
+        let (d1, d2) = (dev.clone(), dev.clone());
         if p.some {
             let mut st: SomeTransport<'static> = t.into();
-            exercise(&mut st, &dev, p, &mut rng);
+            exercise(&mut st, &|f| d1.borrow_mut().offered = f, &|i| d2.borrow_mut().isr = i, p.ver == 1, p.cfg_len, &mut rng);
             with_world(|w| w.reg(json!({"e":"Op","name":"drop","vl":[0,0]})));
             drop(st);
             op_end(json!({}));
         } else {
             let mut t = t;
-            exercise(&mut t, &dev, p, &mut rng);
+            exercise(&mut t, &|f| d1.borrow_mut().offered = f, &|i| d2.borrow_mut().isr = i, p.ver == 1, p.cfg_len, &mut rng);
             with_world(|w| w.reg(json!({"e":"Op","name":"drop","vl":[0,0]})));
             drop(t);
             op_end(json!({}));
